@@ -1,6 +1,7 @@
 #!/usr/bin/env python3
 """tools/gen_tables.py  -- translator for DESIGN 3.3: dumps the unit tables of
-the fend tree in /repo (through the read-only hooks, harness binary h_units)
+the fend tree under test (vlib.REPO: /repo, or $VERIF_REPO for mutant runs;
+through the read-only hooks, harness binary h_units)
 into coq/Units/Generated/UnitTable.v as Coq data:
 
   gen_defs        ALL_UNIT_DEFS verbatim (group, singular, plural, definition)
@@ -327,11 +328,41 @@ def generate(force=False):
     return OUT, changed, t
 
 
+STUB = """(* PLACEHOLDER written by tools/gen_tables.py because the translator could not run
+   (%s).  It only keeps the rest of the development buildable; the units
+   properties cannot be proved over it.  Re-run tools/gen_tables.py. *)
+From FendV Require Import Base.Prelude Units.Defs Units.Lookup.
+From Coq Require Import QArith.
+Close Scope Q_scope.
+Open Scope N_scope.
+Definition gen_defs : list (N * rawdef) := [].
+Definition gen_short : list (str * str) := [].
+Definition gen_currencies : list str := [].
+Definition gen_bodies : list (str * lres value) := [].
+Definition gen_cur_values : list (str * lres value) := [].
+Definition gen_names : list (str * lres (value * option (named_unit * bool))) := [].
+Definition gen_stems : list (str * lres (value * option (named_unit * bool))) := [].
+Definition gen_prefixes : list str := [].
+Definition gen_prefix_status : list (str * list N) := [].
+Definition gen_pi_probe : lres value := LNotFound.
+"""
+
+
+def ensure_exists(reason):
+    """on a fresh tree _CoqProject lists the generated file: never leave it missing"""
+    if not os.path.exists(OUT):
+        os.makedirs(os.path.dirname(OUT), exist_ok=True)
+        with open(OUT, 'w') as fh:
+            import re as _re
+            fh.write(STUB % _re.sub(r'[^A-Za-z0-9 .,:_/-]', ' ', reason)[:300])
+
+
 if __name__ == '__main__':
     try:
         path, changed, t = generate()
-    except TranslatorError as e:
-        print('gen_tables: FAILED: %s' % e)
+    except Exception as e:          # TranslatorError, a failed cargo build, a missing tool chain ...
+        ensure_exists(repr(e))
+        print('gen_tables: FAILED: %r%s' % (e, '' if isinstance(e, TranslatorError) else ' (placeholder table kept the tree buildable)'))
         sys.exit(1)
     print('gen_tables: %s %s (%d definitions, %d names, %d prefixes, %d resolved prefixed names, sha1 %s)' % (
         path, 'rewritten' if changed else 'unchanged', len(t['defs']), len(t['all_names']), len(t['prefixes']),
